@@ -1858,7 +1858,24 @@ class _FormatInferInstance(Visitor):
         else:
             pos_bound = min(exact.pos_bound, scope_af.pos_bound)
             neg_bound = max(exact.neg_bound, scope_af.neg_bound)
-        overlap = AbstractFormat(prec, exp, pos_bound, neg_bound=neg_bound)
+        # The image keeps the special values of the scope that rounding can
+        # reach: the ones *exact* carries, an infinity where a finite value
+        # lies past the scope's bound, and `-0` where a negative value is
+        # finer than the scope's quantum and may round to zero.
+        overlap = AbstractFormat(
+            prec, exp, pos_bound, neg_bound=neg_bound,
+            has_pos_inf=scope_af.has_pos_inf and (
+                exact.has_pos_inf or exact.pos_bound > scope_af.pos_bound
+            ),
+            has_neg_inf=scope_af.has_neg_inf and (
+                exact.has_neg_inf or exact.neg_bound < scope_af.neg_bound
+            ),
+            has_nan=scope_af.has_nan and exact.has_nan,
+            has_neg_zero=scope_af.has_neg_zero and (
+                exact.has_neg_zero
+                or (exact.neg_bound < 0 and exact.exp < scope_af.exp)
+            ),
+        )
         return self._materialize_in_scope(overlap, scope_fmt)
 
     @staticmethod
